@@ -97,6 +97,7 @@ def _cases(draw, tier):
     cfg = draw(G.layout_isa(zones=False))
     why = draw(st.sampled_from(['twice-direct', 'twice-nested', 'diamond', 'missing', 'ambiguous', 'self', 'ambiguous-link-to-the-other', 'missing-but-in-the-working-directory',
                                  'ambiguous-copy-next-to-includer', 'ambiguous-copy-next-to-nested-includer',
+                                 'ambiguous-the-other-is-a-directory', 'self-with-a-namesake-elsewhere', 'self-with-a-namesake-elsewhere',
                                  'includer-file-label-used-in-included', 'included-file-label-used-in-includer',
                                  'includer-file-label-used-in-nested', 'inert-twice', 'inert-missing']))
     byte = {'t': 'data', 'd': '.byte', 'vals': [['num', 7, 'dec']]}
@@ -115,6 +116,8 @@ def _cases(draw, tier):
     elif why == 'inert-missing':
         items = [dict(byte), {'t': 'ifdef', 'name': 'NEVER_DEFINED_SYM'},
                  {'t': 'include', 'file': 'nowhere.asm', 'items': [], 'path': 'nowhere.asm', 'absent': True}, {'t': 'endif'}, dict(byte)]
+    elif why == 'self-with-a-namesake-elsewhere':
+        items = [dict(byte), {'t': 'include', 'file': 'main.asm', 'items': [], 'path': 'main.asm'}]
     elif why == 'self':
         items = [dict(byte), {'t': 'include', 'file': 'main.asm', 'items': [], 'path': 'main.asm'}]
     elif why == 'includer-file-label-used-in-included':
@@ -301,6 +304,13 @@ def execute(case, ctx):
             _into_subdir(files)
             files['common.asm'] = '.byte 9\n'
             main = 'proj/main.asm'
+        if why == 'ambiguous-the-other-is-a-directory':
+            files['inc_b/common.asm/readme.txt'] = 'a directory of that name\n'      # found in two search directories all the same
+        if why == 'self-with-a-namesake-elsewhere':
+            # the main file names itself; a file of its name lies in one search directory: self-inclusion or a name found
+            # twice, rejected either way (the main file is given by its absolute path, as build tools do)
+            files['inc_a/main.asm'] = '.byte 9\n'
+            main = '{ROOT}/main.asm' if case.get('links') else 'main.asm'
         if why == 'ambiguous-link-to-the-other':
             files['inc_b/common.asm'] = ('symlink', 'inc_a/common.asm')   # the name is found in two search directories
         if why == 'ambiguous-copy-next-to-includer':
